@@ -8,7 +8,7 @@ Import ListNotations.
 (* T1: whatever .goitignore contains, the walk of `add <dir>` / `add .` skips
    every path under .goit/ without touching the world *)
 Theorem C17_add_never_stages_goit : forall c file w tr fl rest,
-  ign_load file = Some (x_pats c) -> ~ In c_nl rest ->
+  ign_load file = Some (x_pats c) ->
   add_dir_body c (str ".goit/" ++ rest) (mkMS w tr fl) = (Ok tt, mkMS w tr fl).
 Proof. exact add_never_stages_goit. Qed.
 
@@ -33,19 +33,20 @@ Proof. exact no_ignore_visible. Qed.
 (* T4: a `name/` entry excludes exactly what lies beneath a directory of that
    name (at a component boundary: out/ does not hide about/b) *)
 Theorem C17_dir_entry : forall name r p,
-  inert_comp name -> ign_line (name ++ [c_slash]) = Some r -> ~ In c_nl p ->
+  inert_comp name -> ign_line (name ++ [c_slash]) = Some r ->
   (boundary_match r true p = true <-> under_named [name] p).
 Proof. exact dir_entry_under_named1. Qed.
 
 (* T5: a `*.ext` entry excludes exactly the paths that end in ".ext" *)
 Theorem C17_ext_entry : forall ext r p,
-  inert_comp ext -> ign_line ([x2a; x2e] ++ ext) = Some r -> ~ In c_nl p ->
+  inert_comp ext -> ign_line ([x2a; x2e] ++ ext) = Some r ->
   (boundary_match r true p = true <-> has_ext ([x2e] ++ ext) p).
 Proof. exact ext_entry_has_ext. Qed.
 
 (* ---------- Part 2: the commands ---------- *)
-(* [goit_path q]: q has a component ".goit" followed by something (at any depth;
-   the rest without line break — see DESIGN.md, finding F46) *)
+(* [goit_path q]: q has a component ".goit" followed by something (at any depth,
+   any bytes: finding F46 is repaired, the patterns are compiled with the `s`
+   flag, so a line break in the name no longer lets a path escape) *)
 
 (* No form of add — any argument list, any world with a canonical staging area,
    any outcome — newly stages a path inside Goit's directory; and on a
